@@ -209,7 +209,12 @@ class FakeSocketModule:
 
     def create_connection(self, target):
         self.opened += 1
-        return FakeSocket(self)
+        sock = FakeSocket(self)
+        self.socks = getattr(self, "socks", []) + [sock]
+        return sock
+
+    def pending_total(self):
+        return sum(len(x.pending) for x in getattr(self, "socks", []))
 
 
 class FakeSocket:
@@ -235,25 +240,37 @@ def run_daliserver(seed, res):
     r = rng(seed, "C16", "daliserver")
     orig = D.socket
     try:
-        for multi in (False, True):
-            for i in range(120):
-                kind = r.choice(["query", "plain", "twice", "special", "dtquery"])
-                cmd = simlib.make_command(r, kind, i % 4, i, "tridonic")
-                oc = r.choice(["none", "value", "error", "bad-status"])
+        for session in range(120):
+            multi = session % 2 == 1
+            cmds = []
+            for i in range(1 if not multi else r.randint(2, 6)):
+                kind = r.choice(["query", "plain", "twice", "special", "dtquery", "twice", "query"])
+                cmd = simlib.make_command(r, kind, i % 4, session * 8 + i, "tridonic")
+                oc = r.choice(["none", "value", "error", "bad-status"]) if not multi else r.choice(["none", "value", "error"])
                 v = r.choice([0, 255, r.getrandbits(8)])
-                reply = {"none": bytes([2, 0, 0, 0]), "value": bytes([2, 1, v, 0]), "error": bytes([2, 255, 0, 0]),
-                         "bad-status": bytes([2, 7, 0, 0])}[oc]
-                mod = FakeSocketModule(lambda data: reply)
-                D.socket = mod
+                cmds.append((cmd, oc, v))
+            replies = {}
+            for cmd, oc, v in cmds:
+                replies[bytes([2, 0]) + bytes(cmd.frame.pack)] = {"none": bytes([2, 0, 0, 0]), "value": bytes([2, 1, v, 0]),
+                                                                 "error": bytes([2, 255, 0, 0]), "bad-status": bytes([2, 7, 0, 0])}[oc if cmd.response is not None else "none"]
+            mod = FakeSocketModule(lambda data: replies.get(data, bytes([2, 0, 0, 0])))
+            D.socket = mod
+            outs = []
+            try:
+                with D.DaliServer(multiple_frames_per_connection=multi) as ds:
+                    for cmd, oc, v in cmds:
+                        try:
+                            outs.append(("ok", ds.send(cmd)))
+                        except Exception as e:
+                            outs.append(("exc", e))
+            except Exception as e:
+                outs.append(("exc", e))
+            for (cmd, oc, v), out in zip(cmds, outs):
                 res.evaluations += 1
                 res.distinct += 1
                 res.hit("daliserver_checked")
-                wit = {"driver": "daliserver", "command": str(cmd), "outcome": oc, "value": v, "multi": multi}
-                try:
-                    with D.DaliServer(multiple_frames_per_connection=multi) as ds:
-                        out = ("ok", ds.send(cmd))
-                except Exception as e:
-                    out = ("exc", e)
+                wit = {"driver": "daliserver", "command": str(cmd), "outcome": oc, "value": v, "one_connection": multi,
+                       "session": [(str(c), o, vv) for c, o, vv in cmds]}
                 if cmd.response is None:
                     if out != ("ok", None):
                         res.violation("C16/daliserver/answer-for-non-query", f"send({cmd}) gave {out}", wit)
@@ -274,12 +291,16 @@ def run_daliserver(seed, res):
                     or (oc == "error" and isinstance(raw, F.BackwardFrame) and raw.error)
                 res.hit({"none": "silent_outcomes", "value": "value_outcomes", "error": "error_outcomes"}[oc])
                 if not ok:
-                    res.violation(f"C16/daliserver/wrong-answer/{oc}", f"send({cmd}): daliserver reported {oc} {v}, caller received {raw!r}", wit)
-                if mod.opened != mod.closed + (0 if not multi else 0) and not multi:
-                    res.violation("C16/daliserver/socket-leak", "connection not closed", wit)
+                    res.violation(f"C16/daliserver/wrong-answer/{oc}", f"send({cmd}): daliserver reported {oc} {v} for this frame, caller received "
+                                  f"{None if raw is None else ('error' if raw.error else raw.as_integer)!r}", wit)
+            if mod.pending_total():
+                res.violation("C16/daliserver/unread-replies", f"{mod.pending_total()} replies of the server were left unread in the session",
+                              {"session": [(str(c), o, vv) for c, o, vv in cmds], "one_connection": multi})
+            if mod.opened != mod.closed:
+                res.violation("C16/daliserver/socket-leak", f"{mod.opened} connections opened, {mod.closed} closed", {"one_connection": multi})
     finally:
         D.socket = orig
-    res.sample({"driver": "daliserver", "outcomes": ["none", "value", "error", "bad-status"]})
+    res.sample({"driver": "daliserver", "outcomes": ["none", "value", "error", "bad-status"], "sessions": 120})
 
 
 class FakeSerialModule:
